@@ -11,8 +11,8 @@ from vcheck.sim.backend import TERMINAL, fmt_path
 from vcheck.sim.driver import OUTCOMES
 from vcheck.sim.monitors import V
 
-OUTS_CB = ["ok", "ok-empty", "ok-none", "fail", "fail-nomsg", "timeout", "cancelled", "stopped"]
-OUTS_INV = ["ok", "ok-none", "fail", "fail-nomsg", "timeout", "stopped"]
+OUTS_CB = ["ok", "ok-empty", "ok-none", "fail", "fail-nomsg", "timeout", "cancelled", "stopped", "fail-noerr", "timeout-noerr"]
+OUTS_INV = ["ok", "ok-none", "fail", "fail-nomsg", "timeout", "stopped", "fail-noerr", "timeout-noerr", "stopped-noerr"]
 CATCH = ["CallbackError", "CallableRuntimeError"]
 
 
@@ -150,6 +150,10 @@ def judge(d, _=None):
                 msg = (det.get("Error") or {}).get("ErrorMessage")
                 if o["kind"] != "exc":
                     V(out, "C14", "invoke-failure-not-raised", f"{d.program['name']}: invoke {st} but returned {o['r']}", status=st)
+                elif not o["r"].startswith("exc:CallableRuntimeError:"):
+                    V(out, "C14", "invoke-failure-raised-as-another-exception",
+                      f"{d.program['name']}: invoke {st} (error object: {det.get('Error')}) raised {o['r']} instead of the SDK's "
+                      f"callable error", status=st, got=o["r"].split(":")[1])
                 elif msg and not o["r"].endswith(":" + msg):
                     V(out, "C14", "invoke-error-message-lost",
                       f"{d.program['name']}: invoke {st} with message {msg!r} raised {o['r']}", status=st)
@@ -238,7 +242,7 @@ simcheck.install(globals(), "C14", [judge], space,
                  "create_callback with {nothing, step, log, wait} between creation and result(), with timeout, with a custom "
                  "SerDes; wait_for_callback (also with a submitter that fails once); invoke (default, with timeout, with "
                  "tenant) at top level, in a child context and in a parallel branch next to a running or waiting sibling; "
-                 "backend outcomes {success with payload / empty / none, failed with/without message, timed out, cancelled, "
+                 "backend outcomes {success with payload / empty / none, failed with/without message / without any error object, timed out, cancelled, "
                  "stopped}; delivered during the creating invocation (at the START call or a later call), while PENDING, "
                  "or after a spurious/unrelated wake-up; combined with every single crash point; paginated checkpoint responses under "
                  "three scheduler policies")
